@@ -26,6 +26,7 @@ import (
 	"time"
 	"unsafe"
 
+	"github.com/ajitpratap0/GoSQLX/pkg/gosqlx"
 	"github.com/ajitpratap0/GoSQLX/pkg/models"
 	"github.com/ajitpratap0/GoSQLX/pkg/sql/ast"
 	"github.com/ajitpratap0/GoSQLX/pkg/sql/keywords"
@@ -564,6 +565,112 @@ func runTokenizerHistory(h reuseHist, inputs []string) reuseOut {
 	return out
 }
 
+// ---- API level: the pooled objects behind gosqlx.* / parser.* convenience calls ----
+
+func apiCall(op reuseOp, sql string) callOutcome {
+	var out callOutcome
+	var a *ast.AST
+	var err error
+	isRec := false
+	var stmts []ast.Statement
+	var errs []error
+	out.Panic = guarded(func() {
+		switch op.Op {
+		case "gosqlx.Parse":
+			a, err = gosqlx.Parse(sql)
+		case "gosqlx.ParseWithContext":
+			a, err = gosqlx.ParseWithContext(mkCtx(op.Ctx), sql)
+		case "gosqlx.Validate":
+			err = gosqlx.Validate(sql)
+		case "gosqlx.ParseMultiple":
+			var as []*ast.AST
+			as, err = gosqlx.ParseMultiple([]string{sql, sql})
+			if err == nil && len(as) > 0 {
+				a = as[len(as)-1]
+			}
+		case "gosqlx.ParseWithRecovery":
+			isRec = true
+			stmts, errs = gosqlx.ParseWithRecovery(sql)
+		case "parser.ValidateBytes":
+			err = parser.ValidateBytes([]byte(sql))
+		case "parser.ParseBytes":
+			a, err = parser.ParseBytes([]byte(sql))
+		case "parser.ParseWithDialect":
+			a, err = parser.ParseWithDialect(sql, keywords.SQLDialect(strings.TrimPrefix(op.Opt, "dialect:")))
+		case "parser.ValidateWithDialect":
+			err = parser.ValidateWithDialect(sql, keywords.SQLDialect(strings.TrimPrefix(op.Opt, "dialect:")))
+		case "parser.ParseMultiWithRecovery":
+			mt, terr := modelTokens(sql)
+			if terr != nil {
+				err = terr
+				return
+			}
+			conv, cerr := parser.VerifConvertModelTokens(mt)
+			if cerr != nil {
+				err = cerr
+				return
+			}
+			isRec = true
+			r := parser.ParseMultiWithRecovery(conv)
+			stmts, errs = r.Statements, r.Errors
+			r.Release()
+		case "pool.parser":
+			// a holder that configures a pooled parser, uses it with positions, and returns it
+			p := parser.GetParser()
+			p.ApplyOptions(parserOpts(op.Opt)...)
+			if mt, terr := modelTokens(sql); terr == nil {
+				a, err = p.ParseFromModelTokensWithPositions(mt)
+			}
+			parser.PutParser(p)
+		case "pool.tokenizer":
+			t := tokenizer.GetTokenizer()
+			applyTokCfg(t, op.Opt)
+			_, err = t.Tokenize([]byte(sql))
+			tokenizer.PutTokenizer(t)
+		default:
+			panic("unknown api call " + op.Op)
+		}
+	})
+	if isRec {
+		out.Accepted = len(errs) == 0 && out.Panic == ""
+		out.Trees = stmtHashes(stmts)
+		out.RecErrs = recErrsOf(errs)
+		return out
+	}
+	out.Accepted = err == nil && out.Panic == ""
+	out.Err = infoOf(err)
+	if out.Accepted {
+		out.Trees = astHashes(a)
+	}
+	return out
+}
+
+func runAPIHistory(h reuseHist, inputs []string) reuseOut {
+	out := reuseOut{ID: h.ID, Kind: h.Kind}
+	sqlOf := func(op reuseOp) string {
+		if op.In >= 0 && op.In < len(inputs) {
+			return inputs[op.In]
+		}
+		return ""
+	}
+	drain()
+	for _, op := range h.Ops {
+		apiCall(op, sqlOf(op))
+	}
+	used := apiCall(h.Probe, sqlOf(h.Probe))
+	drain() // empty pools: the same call now runs on newly constructed objects
+	fresh := apiCall(h.Probe, sqlOf(h.Probe))
+	out.ProbeClass = fresh.Err.Code
+	if fresh.Accepted {
+		out.ProbeClass = "accepted"
+	}
+	if used.key() != fresh.key() {
+		out.Mismatch = "api probe " + h.Probe.Op + " differs between warm pools and empty pools"
+		out.Used, out.Fresh = used.key(), fresh.key()
+	}
+	return out
+}
+
 func runReuseHistory(h reuseHist, inputs []string) (out reuseOut) {
 	if len(h.Inputs) > 0 {
 		inputs = h.Inputs
@@ -571,6 +678,8 @@ func runReuseHistory(h reuseHist, inputs []string) (out reuseOut) {
 	pan := guarded(func() {
 		if h.Kind == "tokenizer" {
 			out = runTokenizerHistory(h, inputs)
+		} else if h.Kind == "api" {
+			out = runAPIHistory(h, inputs)
 		} else {
 			out = runParserHistory(h, inputs)
 		}
